@@ -456,6 +456,7 @@ pub fn run(rep: &mut StageReport, tier: &str, seed: u64) {
     let mut counts: HashMap<String, u64> = HashMap::new();
     let mut pipelined = 0u64;
     let mut lib_refusals = 0u64;
+    let mut racing = 0u64;
     let mut unicode_regs = 0u64;
     for r in 0..reps {
         let certs = match gen_certs() {
@@ -476,6 +477,11 @@ pub fn run(rep: &mut StageReport, tier: &str, seed: u64) {
             v.extend(c);
             let (n, f) = tokio::time::timeout(Duration::from_secs(120), super::wirepeers::c11_pipelined(server.addr, &certs, r as u64)).await.map_err(|_| "watchdog: pipelined-registration scenario did not finish in 120 s".to_string())??;
             pipelined += n;
+            for (sig, detail) in f {
+                v.push(V(sig, detail));
+            }
+            let (n, f) = tokio::time::timeout(Duration::from_secs(300), super::wirepeers::concurrent_first_registrations(server.addr, &certs, if thorough { 150 } else { 45 }, 100 + r as u64)).await.map_err(|_| "watchdog: concurrent-registration scenario did not finish in 300 s".to_string())??;
+            racing += n;
             for (sig, detail) in f {
                 v.push(V(sig, detail));
             }
@@ -519,6 +525,7 @@ pub fn run(rep: &mut StageReport, tier: &str, seed: u64) {
     rep.count("pipelined_registration_cases(independent wire peer)", pipelined);
     rep.count("library_open_calls_answered_with_error_frames(hand-written server)", lib_refusals);
     rep.count("registrations_with_non_ascii_names", unicode_regs);
+    rep.count("fresh_topics_with_racing_first_registrations", racing);
     rep.sample(json!({"first_frame_matrix": "8 first-frame kinds × {fresh, existing pub/sub, existing req/rep} topic: each stream must be served in its role (demonstrated by traffic) or refused by an Error frame with a code", "midstream_rounds": rounds}));
     rep.sample(json!({"midstream_round_kinds": ["requestor sends all 8 frame kinds", "requests of limit−{0..64} bytes", "bound replier sends all kinds + malformed tags then leaves (a new replier must serve)", "publisher sends all kinds + frames at the limit"], "after_each": "well-behaved round trip on the same topic; panic log must stay empty"}));
     rep.rule = "one evaluation = one cell of the first-frame matrix (8 kinds × 3 topic states), one hostile mid-stream round followed by a well-behaved round trip on the same topic, or one client-library refusal check; raw quinn peers speaking BiStream/Frame against an in-process server; distinct = distinct cell/round".into();
